@@ -2447,8 +2447,11 @@ impl<'a> Model<'a> {
                 }
 
                 //  We try to parse as number
-                if let Ok((v, number_format)) =
+                // a number that overflows (1e999) is not a number: it stays text
+                if let Some((v, number_format)) =
                     parse_formatted_number(&value, &currencies, self.locale)
+                        .ok()
+                        .filter(|(v, _)| v.is_finite())
                 {
                     if let Some(num_fmt) = number_format {
                         // Should not apply the format in the following cases:
